@@ -232,7 +232,7 @@ class contrast:
     def __add__(self, other):
         if self.dim != other.dim:
             return None
-        con = contrast(self.dim)
+        con = contrast(self.dim, tiny=self._tiny, dofmax=self._dofmax)
         con.type = self.type
         con.effect = self.effect + other.effect
         con.variance = self.variance + other.variance
@@ -241,7 +241,7 @@ class contrast:
 
     def __rmul__(self, other):
         k = float(other)
-        con = contrast(self.dim)
+        con = contrast(self.dim, tiny=self._tiny, dofmax=self._dofmax)
         con.type = self.type
         con.effect = k * self.effect
         con.variance = k ** 2 * self.variance
